@@ -175,6 +175,56 @@ func c04store(ev *verifev.Run, root string, def uint) {
 			}
 		}
 	}
+	// --- histories: every frontend follows the store immediately through management operations
+	{
+		type fe struct {
+			name string
+			ask  func(user, pw string) bool
+		}
+		fes := []fe{
+			{"sasl", func(u, p string) bool { ok, _, _ := cl.Auth(u, p, "svc", ""); return ok }},
+			{"basic-auth", func(u, p string) bool { c, _ := post(mux, "/basic-auth", nil, [2]string{u, p}); return c == 200 }},
+			{"api-authenticate", func(u, p string) bool {
+				b, _ := json.Marshal(map[string]string{"username": u, "password": p})
+				c, _ := post(mux, "/api/authenticate", b, [2]string{})
+				return c == 200
+			}},
+			{"ldap-bind", func(u, p string) bool { c, _ := lh.Bind(u+"@x", p, nil); return c == 0 }},
+		}
+		steps := []struct {
+			name string
+			do   func()
+		}{
+			{"initial", func() {}},
+			{"after update", func() { must(lib.UpdateUser("hist", "second")) }},
+			{"after set-admin", func() { must(lib.SetAdmin("hist", true)) }},
+			{"after remove", func() { lib.RemoveUser("hist") }},
+			{"after re-add with the first password", func() { must(lib.AddUser("hist", "first", false)) }},
+			{"after update back", func() { must(lib.UpdateUser("hist", "third")) }},
+			{"after remove again", func() { lib.RemoveUser("hist") }},
+		}
+		for _, f := range fes {
+			lib.RemoveUser("hist")
+			must(lib.AddUser("hist", "first", false))
+			for _, stp := range steps {
+				stp.do()
+				for _, pw := range []string{"first", "second", "third"} {
+					// ask twice: a positive or negative answer must not be remembered
+					for rep := 0; rep < 2; rep++ {
+						want, _, _, _, _ := lib.Authenticate("hist", pw)
+						got := f.ask("hist", pw)
+						ev.Add("evaluations", 1)
+						ev.Distinct(fmt.Sprintf("hist|%s|%s|%s|%v", f.name, stp.name, pw, got))
+						if got != want {
+							ev.Violation("verdict-does-not-follow-store-state:"+f.name, fmt.Sprintf("[default set %d] frontend %s, %s: user hist password %q: frontend says %v, store says %v", def, f.name, stp.name, pw, got, want),
+								map[string]any{"frontend": f.name, "step": stp.name, "password": pw})
+						}
+					}
+				}
+			}
+		}
+		lib.RemoveUser("hist")
+	}
 	// --- command line: exit status 0 / 1 / 3 (subset: argv cannot carry NUL or empty values)
 	if bin != "" {
 		n := 0
